@@ -341,6 +341,9 @@ def observe_table(t, plan) -> dict:
     w, h = t.size
     o["size"] = (w, h)
     o["values"] = norm(t.get_values())
+    if "target_row" in plan:
+        r = t.get_row(plan["target_row"])
+        o["target_row"] = (r.width, norm(r.get_values()), norm(t.get_row_values(plan["target_row"])))
     if lvl == "light":
         return o
     if "area" in plan:
@@ -371,6 +374,9 @@ def observe_grid(g: Grid, plan) -> dict:
     w, h = g.width, g.height
     o["size"] = (w, h)
     o["values"] = norm(g.values())
+    if "target_row" in plan:
+        rv = g.row_values(plan["target_row"])
+        o["target_row"] = (len(rv), norm(rv), norm(g.row_values_padded(plan["target_row"])))
     if lvl == "light":
         return o
     if "area" in plan:
